@@ -249,8 +249,8 @@ def eager_base(case, raw):
         if base["wrap"] == "arff":
             encs = [col_enc(c, False) for c in base["cols"]]
             names = [c["name"] for c in base["cols"]]
-            if len(names) != len(vals) or len(set(names)) != len(vals):
-                raise Undefined("header does not name every column exactly once")
+            if len(names) > len(vals) or len(set(names)) != len(names):
+                raise Undefined("header names must be distinct and not more than the columns")
             vals = [lazy_enc_apply(e, v) for e, v in zip(encs, vals)]
             hdr = {n: i for i, n in enumerate(names)}
         elif base["wrap"] == "lazy":
@@ -260,8 +260,8 @@ def eager_base(case, raw):
                     raise Undefined("encoder count")
                 vals = [lazy_enc_apply(e, v) for e, v in zip(encs, vals)]
             if base.get("hdr") is not None:
-                if len(base["hdr"]) != len(vals) or len(set(base["hdr"])) != len(vals):
-                    raise Undefined("header does not name every column exactly once")
+                if len(base["hdr"]) > len(vals) or len(set(base["hdr"])) != len(base["hdr"]):
+                    raise Undefined("header names must be distinct and not more than the columns")
                 hdr = {n: i for i, n in enumerate(base["hdr"])}
         return ED(vals, hdr)
     d = {k: cell_from_json(c) for k, c in raw}
@@ -301,13 +301,15 @@ def eager_stage(kind, e, st):
             # a header names every column exactly once (a mapping lists the columns in order)
             if "map" in st:
                 # a mapping names the columns in any order (name -> position), every column exactly once
+                # a mapping name -> column, in any order, for all or only some of the columns: distinct names, distinct existing columns
                 pairs = st["map"]
-                if sorted(k for _, k in pairs if isinstance(k, int)) != list(range(n)) or len(set(nm for nm, _ in pairs)) != n or len(pairs) != n:
-                    raise Undefined("header mapping does not name every column exactly once")
+                ks = [k for _, k in pairs]
+                if any(not isinstance(k, int) or not (0 <= k < n) for k in ks) or len(set(ks)) != len(ks) or len(set(nm for nm, _ in pairs)) != len(pairs):
+                    raise Undefined("header mapping: names and columns must be distinct and the columns must exist")
                 return ED(e.vals, {name: k for name, k in pairs}, e.lab)
             names = list(st["names"])
-            if len(names) != n or len(set(names)) != n:
-                raise Undefined("header does not name every column exactly once")
+            if len(names) > n or len(set(names)) != len(names):
+                raise Undefined("header names must be distinct and not more than the columns")
             return ED(e.vals, {name: i for i, name in enumerate(names)}, e.lab)
         if op == "encode":
             if "seq" in st:
@@ -315,7 +317,7 @@ def eager_stage(kind, e, st):
                     raise Undefined("encoder count")
                 encs = list(st["seq"])
             else:
-                hdr_in_column_order(e)
+                order_hit = not hdr_plain(e)
                 m = {}
                 for k, en in st["map"]:
                     m[k] = en
@@ -329,14 +331,16 @@ def eager_stage(kind, e, st):
                     else:
                         encs.append("id")
             vals = [enc_apply(en, v) for en, v in zip(encs, e.vals)]
-            return ED(vals, e.hdr, e.lab)
+            out = ED(vals, e.hdr, e.lab)
+            out.order_hit = getattr(e, "order_hit", False) or ("map" in st and order_hit)
+            return out
         if op == "drop":
             if not pred_keep(kind, e, st.get("pred")):
                 return None
             cols = st["cols"]
             if not cols:
                 return e
-            hdr_in_column_order(e)
+            order_hit = not hdr_plain(e)
             names = {i: nm for nm, i in (e.hdr or {}).items()}
             keep = [i for i in range(n) if i not in cols and not (i in names and names[i] in cols)]
             pos = {old: new for new, old in enumerate(keep)}
@@ -348,7 +352,9 @@ def eager_stage(kind, e, st):
                 if e.lab[0] not in pos:
                     raise Undefined("label column dropped")
                 lab = (pos[e.lab[0]], e.lab[1])
-            return ED([e.vals[i] for i in keep], hdr, lab)
+            out = ED([e.vals[i] for i in keep], hdr, lab)
+            out.order_hit = getattr(e, "order_hit", False) or order_hit
+            return out
         if op == "label":
             k = st["k"]
             if isinstance(k, str):
@@ -462,12 +468,24 @@ def eager_stage(kind, e, st):
     raise ValueError("stage %r" % (st,))
 
 
-def hdr_in_column_order(e):
-    """EncodeRows(mapping) and DropRows(columns) read the header map in dict order (`enumerate(first.headers)`), which is only the
-    column order for maps listed that way (every reader builds them so). For a map given in another order the stage is left outside the
-    eager definition (recorded observation, see notes): no claim."""
-    if e.hdr is not None and list(e.hdr.values()) != sorted(e.hdr.values()):
-        raise Undefined("header map not in column order before EncodeRows(mapping) / DropRows(columns)")
+def hdr_plain(e):
+    """the header map lists every column, in column order (what every reader builds): the only kind of map for which the unrepaired
+    EncodeRows(mapping) / DropRows(columns) (`enumerate(first.headers)`) pair names with the right columns (recorded C13-F10)"""
+    return e.hdr is None or list(e.hdr.values()) == list(range(len(e.vals)))
+
+
+def order_sensitive(case):
+    """structural over-approximation of the above, used when the eager table is undefined: a dense table with some header map and a
+    later EncodeRows(mapping) / DropRows(columns) (the unrepaired code sizes its arguments by the number of header entries)"""
+    if case["kind"] != "dense":
+        return False
+    hdr = case["base"].get("hdr") is not None or case["base"]["wrap"] == "arff"
+    for st in case["stages"]:
+        if st["op"] == "head":
+            hdr = True
+        elif hdr and ((st["op"] == "encode" and "map" in st) or (st["op"] == "drop" and st["cols"])):
+            return True
+    return False
 
 
 def has_nested_cat(v):
@@ -554,10 +572,16 @@ def py_eq(a, b):
     return a == b
 
 
+class ETable(list):
+    """the eager rows of a table; order_hit: some row met EncodeRows(mapping) / DropRows(columns) under a header map that is not the plain
+    in-order, complete one (area of C13-F10)"""
+    order_hit = False
+
+
 def eager_table(case):
     """the eager table: list of eager rows after all stages (rows dropped by predicates removed)"""
     kind = case["kind"]
-    out = []
+    out = ETable()
     for raw in case["rows"]:
         e = eager_base(case, raw)
         # only LazyDense / LazySparse rows carry the `missing` attribute of their source line
@@ -567,9 +591,13 @@ def eager_table(case):
         for st in case["stages"]:
             m = e.missing
             prev = e
+            if kind == "dense" and ((st["op"] == "encode" and "map" in st) or (st["op"] == "drop" and st["cols"])) and not hdr_plain(e):
+                out.order_hit = True        # also for rows that a predicate removes at this very stage
             e = eager_stage(kind, e, st)
             if e is None:
                 break
+            if getattr(prev, "order_hit", False):
+                e.order_hit = True
             if st["op"] == "enccat" and e is not prev:
                 m = None        # EncodeCatRows materialised the row: a plain list / dict has no `missing`
             if has_err(e):
@@ -1091,6 +1119,8 @@ def areas(case, acc):
     out = []
     if acc is not None and lp is not None and touches_label_part(acc) and any(effective(st) for st in stages[lp + 1:]):
         out.append(("%s:label-not-last" % kind, lambda how, err, exp: True))
+    if case.get("_order_hit"):
+        out.append(("dense:header-map-order", lambda how, err, exp: True))
     if enccat_on_lazy(case):
         out.append(("%s:enccat-on-lazy-row" % kind, lambda how, err, exp: True))
     if kind == "dense":
@@ -1337,7 +1367,23 @@ class C13(Property):
             if op == "head":
                 new = rng.sample(NAMES, k) if k <= len(NAMES) else rng.sample(NAMES + ["h%d" % i for i in range(k)], k)
                 if kind == "dense":
-                    if rng.chance(0.25):
+                    r_ = rng.below(100)
+                    if r_ < 22:
+                        # a Mapping in another order than the columns and / or naming only some of them
+                        cols_ = rng.shuffle(list(range(k)))
+                        if rng.chance(0.4) and k > 1:
+                            cols_ = cols_[:rng.randint(1, k - 1)]
+                        pairs = [[new[i], c] for i, c in enumerate(cols_)]
+                        stages.append({"op": "head", "map": pairs, "flavour": rng.wchoice([(3, None), (2, "proxy"), (2, "chain"), (2, "custom")])})
+                        nn = [None] * k
+                        for nm_, c in pairs:
+                            nn[c] = nm_
+                        new = nn
+                    elif r_ < 30 and k > 1:
+                        short = new[:rng.randint(1, k - 1)]     # HeadRows(list) naming only the first columns
+                        stages.append({"op": "head", "names": short})
+                        new = short + [None] * (k - len(short))
+                    elif r_ < 50:
                         pairs = [[new[i], i] for i in range(k)]
                         stages.append({"op": "head", "map": pairs, "flavour": rng.wchoice([(3, None), (2, "proxy"), (2, "chain"), (2, "custom")])})
                     else:
@@ -1364,7 +1410,7 @@ class C13(Property):
                         used = [j for j in range(k) if rng.chance(0.6)]
                         pairs = []
                         for j in used:
-                            key = cur_names[j] if (cur_names is not None and rng.chance(0.6)) else j
+                            key = cur_names[j] if (cur_names is not None and cur_names[j] is not None and rng.chance(0.6)) else j
                             pairs.append([key, encs[j]])
                         stages.append({"op": "encode", "map": rng.shuffle(pairs)})
                 else:
@@ -1391,7 +1437,7 @@ class C13(Property):
                         dropped = dropped[1:]
                     for j in dropped:
                         if kind == "dense":
-                            cols.append(cur_names[j] if (cur_names is not None and rng.chance(0.5)) else j)
+                            cols.append(cur_names[j] if (cur_names is not None and cur_names[j] is not None and rng.chance(0.5)) else j)
                         else:
                             cols.append(cur_names[j])
                     if rng.chance(0.1):
@@ -1402,7 +1448,7 @@ class C13(Property):
                     pred = {"p": "missing"}
                 elif r < 5:
                     j = rng.below(k)
-                    key = cur_names[j] if (cur_names is not None and (kind == "sparse" or rng.chance(0.5))) else j
+                    key = cur_names[j] if (cur_names is not None and cur_names[j] is not None and (kind == "sparse" or rng.chance(0.5))) else j
                     pred = {"p": "eq", "k": key, "v": self.sample_value(rng, cur_types[j])}
                 stages.append({"op": "drop", "cols": rng.shuffle(cols), "pred": pred})
                 if cur_raw is not None:
@@ -1413,7 +1459,7 @@ class C13(Property):
             elif op == "label":
                 j = rng.below(k)
                 if kind == "dense":
-                    key = cur_names[j] if (cur_names is not None and rng.chance(0.5)) else j
+                    key = cur_names[j] if (cur_names is not None and cur_names[j] is not None and rng.chance(0.5)) else j
                 else:
                     key = cur_names[j] if not rng.chance(0.1) else "lbl"
                     if cur_raw is not None and isinstance(cur_raw[j], int) and rng.chance(0.25):
@@ -1854,6 +1900,14 @@ class C13(Property):
         c = mk("dense", plain, [[1, {"cat": "q", "lv": ["p", "q", "r"]}, 2]], [{"op": "enccat", "t": "onehot"}], full_d)
         c["others"] = [tab("dense", plain, [[{"cat": "p", "lv": ["p", "q"]}, 5]], full_d), tab("dense", plain, [[7, 8, 9, 10]], full_d)]
         cs.append(c)
+        # recorded C13-F10: a header Mapping given in another order than the columns / naming only some of them, then
+        # EncodeRows(mapping by name) and DropRows(by name)
+        perm_map = {"op": "head", "map": [["g", 2], ["f", 0], ["e", 1]]}
+        cs.append(mk("dense", plain, [["1", "b", "c"], ["2", "y", "z"]], [perm_map, {"op": "encode", "map": [["f", "int"], ["g", "dbl"]]}], full_d + [{"a": "name", "k": "f"}, {"a": "name", "k": "g"}, {"a": "name", "k": "e"}], 1))
+        cs.append(mk("dense", plain, [["1", "b", "c"], ["2", "y", "z"]], [perm_map, {"op": "drop", "cols": ["e"], "pred": None}, {"op": "label", "k": "g", "t": "c"}], full_d + lab_d + [{"a": "name", "k": "f"}, {"a": "name", "k": "g"}]))
+        cs.append(mk("dense", {"wrap": "lazy", "loader": True}, [["1", "b", "c"]], [{"op": "head", "map": [["z", 2], ["x", 0]], "flavour": "proxy"}, {"op": "encode", "map": [["z", "dbl"], [1, "dbl"]]}, {"op": "drop", "cols": ["x"], "pred": None}],
+                     full_d + [{"a": "name", "k": "z"}, {"a": "name", "k": "x"}]))
+        cs.append(mk("dense", plain, [["1", "2", "3"]], [{"op": "head", "names": ["a", "b"]}, {"op": "encode", "map": [["a", "int"], [2, "int"]]}, {"op": "drop", "cols": ["b"], "pred": None}], full_d))
         # tables that differ only in the header map (same names, same dict order, same label position, other columns); Mapping flavours
         xyz = [{"a": "feats", "sub": {"a": "name", "k": "x"}}, {"a": "feats", "sub": {"a": "name", "k": "y"}}, {"a": "feats", "sub": {"a": "headers"}},
                {"a": "name", "k": "x"}, {"a": "name", "k": "z"}, {"a": "headers"}, {"a": "label"}, {"a": "feats", "sub": {"a": "iter"}}]
@@ -1970,6 +2024,10 @@ class C13(Property):
         fails, tags = [], []
         kind = case["kind"]
         et_a = et
+        hit = (getattr(et, "order_hit", False) or any(getattr(x, "order_hit", False) for x in et)) if et is not None else order_sensitive(case)
+        if hit:
+            case = dict(case, _order_hit=True)
+            tags.append("header-map-order-area")
         if case.get("nonuniform"):
             # rows that do not look like the first row (jagged / categoricals at other positions): the per-row eager model does not
             # describe what the filters (which look at the first row only) do; only the first-row model `tableD1` is compared (A)
